@@ -338,6 +338,23 @@ def _special_reader(prog, label, adt, rfns):
         cl_tags = [t for c in closure_lookups(prog, f.path).values() for t in c["tags"]]
         body_tags = [strip(R.operand(t["args"][1]))[2] for bi, t in f.calls(lambda c, t: c.endswith("has_tag_name")) if strip(R.operand(t["args"][1]))[0] == "const"]
         str_cmp = any("'String'" in tree_str(strip_deep(R.operand(a))) or "Some('String')" in tree_str(R.operand(a)) for bi, t in f.calls(lambda c, t: c.rsplit("::", 1)[-1] in ("ne", "eq")) for a in t["args"][:2])
+        # the same lookups spelled with iterator adapters: closures built (transitively) in from_node
+        import panic_rules
+        cctx = panic_rules.closure_context(prog)
+        for cp, (owner, ops, recv) in cctx.items():
+            o = owner
+            for _ in range(3):
+                if o.kind == "Closure" and o.path in cctx:
+                    o = cctx[o.path][0]
+            if o.path != f.path or cp not in prog.fns:
+                continue
+            g = prog.fns[cp]
+            Rg = Resolver(g)
+            for bi, t in g.calls(lambda c, t: c.endswith("has_tag_name")):
+                a = strip(Rg.operand(t["args"][1]))
+                if a[0] == "const":
+                    (cl_tags if a[2] == "originalGuids" else body_tags).append(a[2])
+            str_cmp = str_cmp or any("'String'" in tree_str(strip_deep(Rg.operand(a))) for bi, t in g.calls(lambda c, t: c.rsplit("::", 1)[-1] in ("ne", "eq")) for a in t["args"][:2])
         if "originalGuids" in cl_tags and "vectorChild" in body_tags and str_cmp:
             out.setdefault((adt, "original_guids"), []).append(("vectorChild", "String", "loop over originalGuids"))
         cls = closure_lookups(prog, f.path)
